@@ -92,8 +92,8 @@ class Mem(object):
         return "Mem" + repr(self.key())
 
     def replace(self, **kw):
-        m = Mem(*[None] * 0 + [self.size], base=self.base, index=self.index, shift=self.shift, disp=self.disp,
-                seg=self.seg, bcst=self.bcst, addr=self.addr)
+        m = Mem(self.size, base=self.base, index=self.index, shift=self.shift, disp=self.disp, seg=self.seg,
+                bcst=self.bcst, addr=self.addr)
         for k, v in kw.items():
             setattr(m, k, v)
         return m
@@ -108,6 +108,14 @@ class Case(object):
 
     def key(self):
         return (self.mode, self.name, self.opts, self.extra, self.ops, self.pre, self.post)
+
+
+def semantic_canon(c):
+    """Requests that denote the same instruction as a simpler one are judged as that one:
+    ret/retf 0 == ret/retf (C2 0000 and C3 pop the same number of bytes)."""
+    if c.name in ("ret", "retf") and c.ops == (("i", 0),):
+        return Case(c.mode, c.name, c.opts, c.extra, (), c.pre, c.post, c.form, c.dev, c.sig)
+    return c
 
 
 # ---------------------------------------------------------------------------------------------------------------
@@ -163,6 +171,15 @@ _PTR = {1: "byte", 2: "word", 4: "dword", 6: "fword", 8: "qword", 10: "tbyte", 1
         64: "zmmword"}
 
 
+def _name_in_mode(kind, rid, mode):
+    """Register name usable in `mode` (32-bit mode has only registers 0..7 of every class)."""
+    if mode == 32 and rid >= 8:
+        return None
+    if mode == 32 and kind == "r64":
+        return None
+    return reg_name(kind, rid)
+
+
 def intel_mem(m, mode):
     parts = []
     if m.base is None or m.base == "abs":
@@ -172,18 +189,22 @@ def intel_mem(m, mode):
     elif m.base[0] == "label":
         return None  # rendered by the caller (needs the label position)
     else:
-        n = reg_name(*m.base)
+        n = _name_in_mode(m.base[0], m.base[1], mode)
         if n is None:
             return None
         parts.append(n)
     if m.index is not None:
-        n = reg_name(*m.index)
+        n = _name_in_mode(m.index[0], m.index[1], mode)
         if n is None:
             return None
-        parts.append("%s*%d" % (n, 1 << m.shift))
+        # gas has no scale syntax for 16-bit addressing; "*1" is only needed to mark an index without base
+        if m.shift == 0 and parts:
+            parts.append(n)
+        else:
+            parts.append("%s*%d" % (n, 1 << m.shift))
     d = m.disp
     if parts:
-        if d or not parts:
+        if d:
             parts.append("%d" % d)
         s = "+".join(parts).replace("+-", "-")
     else:
@@ -198,7 +219,7 @@ def intel_mem(m, mode):
         if m.size not in _PTR:
             return None
         out = _PTR[m.size] + " ptr "
-    if m.seg:
+    if m.seg >= 5:
         out += _SEG[m.seg] + ":"
     out += "[" + s + "]"
     if m.bcst:
@@ -206,15 +227,40 @@ def intel_mem(m, mode):
     return out
 
 
-def intel_text(c, mnemonic=None):
+# database / asmjit mnemonic -> GNU as mnemonic where the names differ (the db calls the 16-bit forms iret/popf/...;
+# gas calls those iretw/popfw/... and uses the bare name for the mode's default size)
+GAS_MNEMONIC = {"iret": "iretw", "popf": "popfw", "pushf": "pushfw", "popa": "popaw", "pusha": "pushaw",
+                "popad": "popa", "pushad": "pusha", "iretd": "iret", "popfd": "popf", "pushfd": "pushf"}
+_STRING_ES_DEST = {"movs", "cmps", "scas", "stos", "ins"}
+_CX_BRANCH = {"jecxz", "loop", "loope", "loopne"}
+
+
+def intel_text(c, mnemonic=None, length=None):
     """Intel-syntax line for GNU as, or None when the case cannot be written in gas syntax (registers that do not
     exist without APX, ...).  Encoding-choice options (rex, vex3, evex, short/long, mod-mr) are deliberately NOT
     passed on: the comparison is between decodings, which do not depend on the encoding chosen."""
     ops = []
-    for idx, op in enumerate(c.ops):
+    name = mnemonic or GAS_MNEMONIC.get(c.name, c.name)
+    pre_words = ""
+    src_ops = list(c.ops)
+    if c.name in _CX_BRANCH:
+        # gas names the counter through the mnemonic (jcxz/jecxz/jrcxz) or an address-size prefix (loop*)
+        cx = None
+        if len(src_ops) == 2 and src_ops[0][0] == "r":
+            if src_ops[0][2] != 1 or src_ops[0][1] not in ("r16", "r32", "r64"):
+                return None
+            cx = KIND_BITS[src_ops[0][1]]
+            src_ops = src_ops[1:]
+        if cx is None:
+            cx = c.mode
+        if c.name == "jecxz":
+            name = {16: "jcxz", 32: "jecxz", 64: "jrcxz"}[cx]
+        elif cx != c.mode:
+            pre_words = "addr%d " % cx
+    for idx, op in enumerate(src_ops):
         t = op[0]
         if t == "r":
-            n = reg_name(op[1], op[2])
+            n = _name_in_mode(op[1], op[2], c.mode) if op[1] != "sreg" else reg_name(op[1], op[2])
             if n is None:
                 return None
             ops.append(n)
@@ -222,17 +268,23 @@ def intel_text(c, mnemonic=None):
             v = op[1]
             ops.append("%d" % v if -(1 << 31) <= v < (1 << 31) else ("0x%x" % v if v >= 0 else "-0x%x" % -v))
         elif t == "l":
-            ops.append(_label_expr(c, op[1]))
+            ops.append(_label_expr(c, op[1], length))
             if ops[-1] is None:
                 return None
+        elif t == "m" and idx == 0 and c.name in ("movdir64b", "enqcmd", "enqcmds", "umonitor") and isinstance(op[1].base, tuple) and \
+                op[1].index is None and op[1].disp == 0 and op[1].seg in (0, 1):
+            n = _name_in_mode(op[1].base[0], op[1].base[1], c.mode)      # gas writes the address register itself
+            if n is None:
+                return None
+            ops.append(n)
         elif t == "m":
             m = op[1]
             if m.base is not None and m.base != "abs" and m.base[0] == "label":
-                e = _label_expr(c, m.base[1])
+                e = _label_expr(c, m.base[1], length)
                 if e is None or c.mode != 64 or m.index is not None:
                     return None
                 pfx = (_PTR[m.size] + " ptr ") if m.size in _PTR else ""
-                s = pfx + (_SEG[m.seg] + ":" if m.seg else "") + "[rip+" + e + ("%+d" % m.disp if m.disp else "") + "]"
+                s = pfx + (_SEG[m.seg] + ":" if m.seg >= 5 else "") + "[rip+" + e + ("%+d" % m.disp if m.disp else "") + "]"
             else:
                 s = intel_mem(m, c.mode)
             if s is None:
@@ -258,6 +310,13 @@ def intel_text(c, mnemonic=None):
             pos -= 1
         ops.insert(pos, rc)
     pfx = ""
+    for op in c.ops:
+        # es/cs/ss/ds overrides: gas drops a redundant override and refuses "es"/"ss" prefixes in 64-bit mode, so the
+        # prefix byte (SDM vol.2 2.1.1: 26 es, 2e cs, 36 ss, 3e ds) is written directly in front of the instruction
+        if op[0] == "m" and op[1].seg == 1 and c.name in _STRING_ES_DEST and isinstance(op[1].base, tuple) and op[1].base[1] == 7:
+            continue        # es:[zdi] of a string instruction is es anyway: no prefix
+        if op[0] == "m" and 1 <= op[1].seg <= 4:
+            pfx += ".byte 0x%02x; " % (0x26, 0x2E, 0x36, 0x3E)[op[1].seg - 1]
     if c.opts & OPT["xacquire"]:
         pfx += "xacquire "
     if c.opts & OPT["xrelease"]:
@@ -268,10 +327,10 @@ def intel_text(c, mnemonic=None):
         pfx += "rep "
     if c.opts & OPT["repne"]:
         pfx += "repne "
-    return pfx + (mnemonic or c.name) + (" " + ", ".join(ops) if ops else "")
+    return pfx + pre_words + name + (" " + ", ".join(ops) if ops else "")
 
 
-def _label_expr(c, n):
+def _label_expr(c, n, length=None):
     """Expression for label n relative to the start of the instruction ('.'): the label is bound `pad` bytes
     before the instruction (pre ops) or right after `pad` bytes following it (post ops; needs the length, which
     gas knows as 1f)."""
@@ -290,15 +349,31 @@ def _label_expr(c, n):
         if p.startswith("pad="):
             fwd += int(p[4:])
         elif p == "bind=%d" % n:
-            return "1f%+d" % fwd if fwd else "1f"
+            # distance from the START of the instruction as asmjit laid it out (its own length + padding), so the
+            # target does not depend on the encoding the reference assembler picks
+            if length is None:
+                return None
+            return ".+%d" % (length + fwd)
     return None  # unbound label: no reference text
 
 
 # ---------------------------------------------------------------------------------------------------------------
 # database
 # ---------------------------------------------------------------------------------------------------------------
+_DB_CACHE = {}
+
+
 def load_db(repo, cache_dir=None):
-    """Runs tools/dump_isa_x86.js on <repo>/db and returns the list of forms; the dump is cached by content hash."""
+    """Runs tools/dump_isa_x86.js on <repo>/db and returns the list of forms; the dump is cached by content hash
+    (on disk) and per process."""
+    if repo in _DB_CACHE:
+        return _DB_CACHE[repo]
+    forms = _load_db(repo, cache_dir)
+    _DB_CACHE[repo] = forms
+    return forms
+
+
+def _load_db(repo, cache_dir=None):
     dbdir = os.path.join(repo, "db")
     h = hashlib.sha1()
     for fn in ("isa_x86.json", "x86.js", "base.js"):
@@ -611,7 +686,7 @@ def mem_operand_scale(f, o):
     if f["prefix"] != "EVEX":
         return 1
     if o["vsibReg"]:
-        return max(1, (f["elementSize"] if f["elementSize"] > 0 else 32) // 8) if False else _vsib_elem_bytes(f)
+        return _vsib_elem_bytes(f)
     if o["memSize"] and o["memSize"] > 0:
         return max(1, o["memSize"] // 8)
     return 1
